@@ -25,6 +25,7 @@ type (
 	IP       = stdnet.IP
 )
 
+//go:norace
 func ResolveTCPAddr(network, address string) (*TCPAddr, error) {
 	return stdnet.ResolveTCPAddr(network, address)
 }
@@ -39,7 +40,7 @@ type TCPListener struct {
 }
 
 var (
-	listeners map[string]*TCPListener
+	listeners []*TCPListener
 	// LastAccepted is the peer of the connection most recently returned by an accept call.
 	LastAccepted *Peer
 	// Hooks, installed by the harness for one run.
@@ -50,19 +51,23 @@ var (
 )
 
 // Reset clears all simulated network state (once per run, inside the bubble).
+//
+//go:norace
 func Reset() {
-	listeners = map[string]*TCPListener{}
+	listeners = nil
 	LastAccepted = nil
 	OnServerWrite, OnServerClose, OnServerRead = nil, nil, nil
 	nextID = 0
 }
 
+//go:norace
 func listen(addr string) *TCPListener {
 	l := &TCPListener{addr: addr, wake: make(chan struct{}, 1)}
-	listeners[addr] = l
+	listeners = append(listeners, l)
 	return l
 }
 
+//go:norace
 func ListenTCP(network string, laddr *TCPAddr) (*TCPListener, error) {
 	a := ""
 	if laddr != nil {
@@ -71,6 +76,7 @@ func ListenTCP(network string, laddr *TCPAddr) (*TCPListener, error) {
 	return listen(a), nil
 }
 
+//go:norace
 func Listen(network, address string) (Listener, error) { return listen(address), nil }
 
 //go:norace
@@ -92,12 +98,29 @@ func (l *TCPListener) AcceptTCP() (*TCPConn, error) {
 	}
 }
 
+//go:norace
 func (l *TCPListener) Accept() (Conn, error) { return l.AcceptTCP() }
-func (l *TCPListener) Close() error          { l.closed = true; return nil }
-func (l *TCPListener) Addr() Addr            { return &TCPAddr{} }
+
+//go:norace
+func (l *TCPListener) Close() error { l.closed = true; return nil }
+
+//go:norace
+func (l *TCPListener) Addr() Addr { return &TCPAddr{} }
 
 // Listening reports whether a server listens on addr.
-func Listening(addr string) bool { _, ok := listeners[addr]; return ok }
+//
+//go:norace
+func Listening(addr string) bool { return findListener(addr) != nil }
+
+//go:norace
+func findListener(addr string) *TCPListener {
+	for _, l := range listeners {
+		if l.addr == addr {
+			return l
+		}
+	}
+	return nil
+}
 
 // ---- connections ----
 
@@ -136,7 +159,7 @@ type Peer struct {
 func Dial(addr, label string) *Peer {
 	simrt.RaceOff()
 	defer simrt.RaceOn()
-	l := listeners[addr]
+	l := findListener(addr)
 	if l == nil {
 		return nil
 	}
@@ -208,9 +231,13 @@ func (p *Peer) FailWrites() {
 }
 
 // Gone reports whether the terminal's end has been closed or reset.
+//
+//go:norace
 func (p *Peer) Gone() bool { return p.peerGone }
 
 // PendingIn is the number of chunks delivered but not yet read by the server.
+//
+//go:norace
 func (p *Peer) PendingIn() int { return len(p.srv.in.chunks) }
 
 //go:norace
@@ -314,20 +341,47 @@ func (c *TCPConn) Close() error {
 	return nil
 }
 
-func (c *TCPConn) CloseRead() error                   { return nil }
-func (c *TCPConn) CloseWrite() error                  { return nil }
-func (c *TCPConn) LocalAddr() Addr                    { return &TCPAddr{IP: IP{10, 0, 0, 1}, Port: 808} }
-func (c *TCPConn) RemoteAddr() Addr                   { return &TCPAddr{IP: IP{10, 0, 1, byte(c.peer.ID)}, Port: 40000 + c.peer.ID} }
-func (c *TCPConn) SetDeadline(t time.Time) error      { return nil }
-func (c *TCPConn) SetReadDeadline(t time.Time) error  { return nil }
+//go:norace
+func (c *TCPConn) CloseRead() error { return nil }
+
+//go:norace
+func (c *TCPConn) CloseWrite() error { return nil }
+
+//go:norace
+func (c *TCPConn) LocalAddr() Addr { return &TCPAddr{IP: IP{10, 0, 0, 1}, Port: 808} }
+
+//go:norace
+func (c *TCPConn) RemoteAddr() Addr {
+	return &TCPAddr{IP: IP{10, 0, 1, byte(c.peer.ID)}, Port: 40000 + c.peer.ID}
+}
+
+//go:norace
+func (c *TCPConn) SetDeadline(t time.Time) error { return nil }
+
+//go:norace
+func (c *TCPConn) SetReadDeadline(t time.Time) error { return nil }
+
+//go:norace
 func (c *TCPConn) SetWriteDeadline(t time.Time) error { return nil }
-func (c *TCPConn) SetKeepAlive(bool) error            { return nil }
+
+//go:norace
+func (c *TCPConn) SetKeepAlive(bool) error { return nil }
+
+//go:norace
 func (c *TCPConn) SetKeepAlivePeriod(time.Duration) error {
 	return nil
 }
-func (c *TCPConn) SetNoDelay(bool) error   { return nil }
-func (c *TCPConn) SetLinger(int) error     { return nil }
+
+//go:norace
+func (c *TCPConn) SetNoDelay(bool) error { return nil }
+
+//go:norace
+func (c *TCPConn) SetLinger(int) error { return nil }
+
+//go:norace
 func (c *TCPConn) SetReadBuffer(int) error { return nil }
+
+//go:norace
 func (c *TCPConn) SetWriteBuffer(int) error {
 	return nil
 }
@@ -336,6 +390,8 @@ var _ Conn = (*TCPConn)(nil)
 var _ Listener = (*TCPListener)(nil)
 
 // IsTimeout mirrors a helper some code uses.
+//
+//go:norace
 func IsTimeout(err error) bool {
 	var ne Error
 	return errors.As(err, &ne) && ne.Timeout()
